@@ -44,15 +44,18 @@ func (t *c16Tree) files(schemas []c16Schema) map[string]string {
 	return out
 }
 
-// genRaceTree16: a default-schema tree that exercises both code paths: a kind outside the precomputed
-// namespace table (IsNamespaceScoped falls through to the map read) and a strategic-merge patch
-// (SchemaForResourceType -> initSchema).
-func genRaceTree16(g *Rng, explicitVersion bool) *c16Tree {
+// genRaceTree16: a default-schema tree that exercises both code paths: kinds outside the precomputed
+// namespace table (IsNamespaceScoped falls through to the unlocked map read) and a strategic-merge patch
+// (SchemaForResourceType -> initSchema). size = number of extra resources: trees of different sizes reach
+// initSchema at different moments, which is what makes the unsynchronised accesses overlap.
+func genRaceTree16(g *Rng, explicitVersion bool, size int) *c16Tree {
 	t := genTree16(g, 0, true)
 	if !explicitVersion {
 		t.Ver, t.BaseVer = nil, nil
+	} else {
+		t.Ver = strp("v1.21.2")
 	}
-	hasCRD, hasPatchable := false, false
+	hasCRD := false
 	for _, r := range t.allRes() {
 		if r.Kind == "Foo" || r.Kind == "Bar" {
 			hasCRD = true
@@ -61,12 +64,6 @@ func genRaceTree16(g *Rng, explicitVersion bool) *c16Tree {
 	if !hasCRD {
 		t.Res = append(t.Res, c16Res{Kind: g.Pick([]string{"Foo", "Bar"}), Name: "tx"})
 	}
-	for _, r := range t.allRes() {
-		if _, ok := c16MkPath[r.Kind]; ok {
-			hasPatchable = true
-		}
-	}
-	_ = hasPatchable
 	if len(t.Patches) == 0 {
 		for _, r := range t.allRes() {
 			if _, ok := c16MkPath[r.Kind]; ok {
@@ -75,10 +72,8 @@ func genRaceTree16(g *Rng, explicitVersion bool) *c16Tree {
 			}
 		}
 	}
-	// more work per build widens the window: a few extra resources
-	n := g.Intn(6)
-	for i := 0; i < n; i++ {
-		t.Res = append(t.Res, c16Res{Kind: g.Pick([]string{"ConfigMap", "Deployment", "Foo", "Bar"}), Name: fmt.Sprintf("tz%d", i)})
+	for i := 0; i < size; i++ {
+		t.Res = append(t.Res, c16Res{Kind: g.Pick([]string{"ConfigMap", "Deployment", "Foo", "Bar", "Foo"}), Name: fmt.Sprintf("tz%d", i)})
 	}
 	return t
 }
@@ -112,17 +107,24 @@ func c16ParseRaces(stderr string) []c16RaceReport {
 			if strings.Contains(strings.ToLower(m[1]), "write") {
 				kind = "write"
 			}
-			fn := "?"
+			// the access is attributed to the innermost kustomize frame (reads through reflect / jsonpointer and
+			// runtime map helpers are attributed to the kustomize function that made them)
+			fn, fallback := "", "?"
 			for j := i + 1; j < len(lines) && strings.TrimSpace(lines[j]) != ""; j++ {
 				fm := c16RaceFrame.FindStringSubmatch(lines[j])
 				if fm == nil {
 					continue
 				}
-				if strings.HasPrefix(fm[1], "runtime.") || strings.HasPrefix(fm[1], "internal/") {
-					continue
+				if strings.HasPrefix(fm[1], "sigs.k8s.io/kustomize/") {
+					fn = fm[1]
+					break
 				}
-				fn = fm[1]
-				break
+				if fallback == "?" && !strings.HasPrefix(fm[1], "runtime.") && !strings.HasPrefix(fm[1], "internal/") {
+					fallback = fm[1]
+				}
+			}
+			if fn == "" {
+				fn = fallback
 			}
 			accs = append(accs, kind+":"+fn)
 		}
@@ -165,8 +167,9 @@ func c16RaceClass(rep c16RaceReport, explicitVersion bool) string {
 		return c16KnownRace
 	}
 	if explicitVersion && initWrites[w] && strings.HasPrefix(rep.Funcs[0], "read:") != strings.HasPrefix(rep.Funcs[1], "read:") {
-		switch r {
-		case c16OpenapiPkg + "SchemaForResourceType", c16OpenapiPkg + "IsNamespaceScoped":
+		switch strings.TrimPrefix(r, c16OpenapiPkg) {
+		case "SchemaForResourceType", "IsNamespaceScoped", "resolve", "Resolve", "rootSchema", "Schema",
+			"(*ResourceSchema).Field", "(*ResourceSchema).Elements", "(*ResourceSchema).Lookup":
 			return c16ReinitRace
 		}
 	}
@@ -241,40 +244,71 @@ func c16Alone(t *c16Tree) string {
 	}
 }
 
-func c16GenRaceJob(g *Rng, rounds int) (c16RaceJob, [][]*c16Tree) {
+// c16RaceSpec is the replayable description of a job: rounds of trees.
+type c16RaceSpec struct {
+	Rounds []c16RaceSpecRound `json:"rounds"`
+}
+type c16RaceSpecRound struct {
+	Trees      []*c16Tree `json:"trees"`
+	GoMaxProcs int        `json:"gomaxprocs"`
+	Repeat     int        `json:"repeat"`
+}
+
+// c16JobOf renders a spec for the driver and builds every tree alone (fresh state, this process).
+func c16JobOf(spec c16RaceSpec) c16RaceJob {
 	job := c16RaceJob{}
-	var trees [][]*c16Tree
-	for i := 0; i < rounds; i++ {
-		n := 2 + g.Intn(15)
-		if i == 0 {
-			n = 16
-		}
-		explicit := i%3 == 2
-		rd := c16RaceRound{GoMaxProcs: []int{2, 4, 8, 16}[g.Intn(4)], Repeat: 1 + g.Intn(2)}
-		var ts []*c16Tree
+	for _, sr := range spec.Rounds {
+		rd := c16RaceRound{GoMaxProcs: sr.GoMaxProcs, Repeat: sr.Repeat}
+		explicit := false
 		var alone []string
-		for k := 0; k < n; k++ {
-			t := genRaceTree16(g.Fork(), explicit && (k%2 == 0))
-			ts = append(ts, t)
+		for _, t := range sr.Trees {
+			if t.Ver != nil || t.BaseVer != nil {
+				explicit = true
+			}
 			rd.Trees = append(rd.Trees, c16RaceTree{Files: t.files(nil), Root: "/t"})
 			alone = append(alone, c16Alone(t))
 		}
 		job.Rounds = append(job.Rounds, rd)
 		job.Explicit = append(job.Explicit, explicit)
 		job.Alone = append(job.Alone, alone)
-		trees = append(trees, ts)
 	}
 	openapi.ResetOpenAPI()
-	return job, trees
+	return job
+}
+
+// c16GenRaceSpec: round 0 has the shape that makes the overlap likely (one small tree, the others large);
+// the following rounds are random mixes of 2..16 trees.
+func c16GenRaceSpec(g *Rng, rounds int, explicit bool) c16RaceSpec {
+	spec := c16RaceSpec{}
+	for i := 0; i < rounds; i++ {
+		n := 2 + g.Intn(15)
+		rd := c16RaceSpecRound{GoMaxProcs: []int{2, 4, 8, 16}[g.Intn(4)], Repeat: 1 + g.Intn(2)}
+		if i == 0 {
+			n = 3 + g.Intn(4)
+			rd.GoMaxProcs = []int{4, 8, 16}[g.Intn(3)]
+			rd.Repeat = 1
+		}
+		for k := 0; k < n; k++ {
+			size := g.Intn(8)
+			if i == 0 && k > 0 {
+				size = 20 + g.Intn(30)
+			} else if i > 0 && g.Chance(30) {
+				size = 10 + g.Intn(25)
+			}
+			rd.Trees = append(rd.Trees, genRaceTree16(g.Fork(), explicit && (k%2 == 1), size))
+		}
+		spec.Rounds = append(spec.Rounds, rd)
+	}
+	return spec
 }
 
 // c16EvalRace turns one driver run into violations.
-func c16EvalRace(r *Run, job c16RaceJob, outs [][][]string, stderr, errText string) {
+func c16EvalRace(r *Run, spec c16RaceSpec, job c16RaceJob, outs [][][]string, stderr, errText string) {
 	anyExplicit := false
 	for _, e := range job.Explicit {
 		anyExplicit = anyExplicit || e
 	}
-	replay := func() interface{} { return map[string]interface{}{"kind": "race", "job": job} }
+	replay := func() interface{} { return map[string]interface{}{"kind": "race", "spec": spec} }
 	if strings.Contains(stderr, "fatal error: concurrent map") {
 		r.Violation(OracleViolation{Law: "no_data_race", Class: c16MapFatal,
 			Detail: "the Go runtime aborted the process: " + firstLines(stderr[strings.Index(stderr, "fatal error: concurrent map"):], 12), Replay: replay()})
@@ -291,7 +325,7 @@ func c16EvalRace(r *Run, job c16RaceJob, outs [][][]string, stderr, errText stri
 		for _, rep := range c16ParseRaces(s) {
 			cls := c16RaceClass(rep, explicit)
 			r.Count("race_pairs", rep.Pair)
-			r.Violation(OracleViolation{Law: "no_data_race", Class: cls, Detail: firstLines(rep.Text, 40), Replay: replay()})
+			r.Violation(OracleViolation{Law: "no_data_race", Class: cls, Detail: rep.Pair + "\n" + c16RaceDigest(rep.Text), Replay: replay()})
 		}
 	}
 	// results: every concurrent output equals the output of the tree built alone
@@ -312,6 +346,26 @@ func c16EvalRace(r *Run, job c16RaceJob, outs [][][]string, stderr, errText stri
 	}
 }
 
+// c16RaceDigest keeps the header and the first frames of both access stacks of a report.
+func c16RaceDigest(text string) string {
+	lines := strings.Split(text, "\n")
+	var out []string
+	keep := 0
+	for _, l := range lines {
+		if c16RaceHdr.MatchString(l) {
+			keep = 13
+		}
+		if strings.HasPrefix(l, "Goroutine ") {
+			break
+		}
+		if keep > 0 {
+			out = append(out, l)
+			keep--
+		}
+	}
+	return strings.Join(out, "\n")
+}
+
 func firstLines(s string, n int) string {
 	l := strings.Split(s, "\n")
 	if len(l) > n {
@@ -327,27 +381,38 @@ func lastLines(s string, n int) string {
 	return strings.Join(l, "\n")
 }
 
-func c16RaceSearch(r *Run, g *Rng, rounds int, tier string) error {
+func c16RaceSearch(r *Run, g *Rng, procs int, tier string) error {
 	bin, blog, err := c16RaceBinary()
 	if err != nil {
 		// without the -race binary the search cannot run: that is a broken check, not a pass
 		return fmt.Errorf("go build -race ./c16race failed: %v\n%s", err, blog)
 	}
-	perProc := 3
-	for done := 0; done < rounds; done += perProc {
-		n := perProc
-		if rounds-done < n {
-			n = rounds - done
-		}
-		job, _ := c16GenRaceJob(g.Fork(), n)
+	specs := loadRaceCorpus16()
+	r.Count("race_corpus_jobs", fmt.Sprint(len(specs)))
+	for p := 0; p < procs; p++ {
+		// the race detector reports a given pair of stacks once per process: many short processes
+		specs = append(specs, c16GenRaceSpec(g.Fork(), 2, p%3 == 2))
+	}
+	for _, spec := range specs {
+		job := c16JobOf(spec)
 		for _, rd := range job.Rounds {
 			r.Count("race_round_trees", fmt.Sprint(len(rd.Trees)))
 			r.Count("race_round_gomaxprocs", fmt.Sprint(rd.GoMaxProcs))
 		}
 		outs, stderr, errText := c16RunRace(bin, job, 240*time.Second)
-		c16EvalRace(r, job, outs, stderr, errText)
+		c16EvalRace(r, spec, job, outs, stderr, errText)
 	}
 	return nil
+}
+
+func loadRaceCorpus16() []c16RaceSpec {
+	out := []c16RaceSpec{}
+	data, err := os.ReadFile(verifRoot() + "/corpus/C16/race-witness.json")
+	if err != nil {
+		return out
+	}
+	_ = json.Unmarshal(data, &out)
+	return out
 }
 
 // ---------------------------------------------------------------- replay
@@ -365,8 +430,8 @@ func replayC16(path string) (bool, string, error) {
 		return false, "", err
 	}
 	var kind struct {
-		Kind string     `json:"kind"`
-		Job  c16RaceJob `json:"job"`
+		Kind string      `json:"kind"`
+		Spec c16RaceSpec `json:"spec"`
 	}
 	_ = json.Unmarshal(rp.Case, &kind)
 	if kind.Kind == "race" {
@@ -376,9 +441,10 @@ func replayC16(path string) (bool, string, error) {
 		}
 		r := NewRun("C16", "replay", 0, "", "")
 		var detail strings.Builder
-		for attempt := 0; attempt < 5 && len(r.Meta.Violations) == 0; attempt++ {
-			outs, stderr, errText := c16RunRace(bin, kind.Job, 240*time.Second)
-			c16EvalRace(r, kind.Job, outs, stderr, errText)
+		job := c16JobOf(kind.Spec)
+		for attempt := 0; attempt < 8 && len(r.Meta.Violations) == 0; attempt++ {
+			outs, stderr, errText := c16RunRace(bin, job, 240*time.Second)
+			c16EvalRace(r, kind.Spec, job, outs, stderr, errText)
 			fmt.Fprintf(&detail, "attempt %d: %d race reports, driver error %q\n", attempt+1, len(c16ParseRaces(stderr)), errText)
 		}
 		for _, v := range r.Meta.Violations {
